@@ -36,7 +36,7 @@ record("JobContainerByName", file="jade/jobs/job_container_by_name.py", fields={
 define("cfgjob", ["s", "nm"], "s._config._jobs._jobs[nm]")
 define("known", ["s", "nm"], "nm in s._config._jobs._jobs and s._config._jobs._jobs[nm].name == nm")
 
-contract("JobConfiguration.get_job", kind="assumed", pure=True,
+contract("JobConfiguration.get_job", kind="assumed", pure=True, reads=["JobConfiguration", "JobContainerByName"],
          params=[("self", "Ref[JobConfiguration]"), ("name", "Name")], returns="Ref[JadeJob]",
          requires=["name in self._jobs._jobs"],
          ensures=["result == self._jobs._jobs[name]"],
